@@ -10,6 +10,7 @@ import (
 	real "path/filepath"
 	"sort"
 	"strings"
+	"syscall"
 
 	os "verif.local/sim/simos"
 )
@@ -93,7 +94,7 @@ func EvalSymlinks(p string) (string, error) {
 			if !fi.IsDir() && i < len(parts)-1 {
 				rest := strings.Join(parts[i+1:], "")
 				if rest != "" {
-					return "", &fs.PathError{Op: "lstat", Path: next, Err: errors.New("not a directory")}
+					return "", syscall.ENOTDIR // as the standard library does: a bare errno
 				}
 			}
 			dest = next
